@@ -19,7 +19,7 @@ UNITS = {
     'cw': {'rlimit': 50, 'timeout': 120},
     'open': {'rlimit': 50, 'timeout': 120},
     'bytesio': {'rlimit': 50, 'timeout': 120},
-    'builder': {'rlimit': 50, 'timeout': 240},
+    'builder': {'rlimit': 150, 'timeout': 400},
     'encode': {'rlimit': 100, 'timeout': 240},
     'getkey': {'rlimit': 50, 'timeout': 120},
     'stream': {'rlimit': 50, 'timeout': 240},
